@@ -145,6 +145,8 @@ func (b c15TB) Fatal(args ...any)                 { panic(c15Retry{fmt.Sprint(ar
 // c15Net = vRelayNet(+C) with pinned randomness exactly as vNewNet does it, retried on the assembly flake.
 func c15Net(t testing.TB, seed int64) (net *vnet) {
 	extra := vnodeSpec{Name: "c", Networks: "10.0.0.3/24", Udp: "192.0.2.3:4242", Overrides: m{"relay": m{"use_relays": true}}}
+	// one P while the nodes are assembled: the goroutine the assembly waits for then runs on this very thread
+	defer runtime.GOMAXPROCS(runtime.GOMAXPROCS(1))
 	for attempt := 0; ; attempt++ {
 		func() {
 			defer func() {
@@ -848,9 +850,6 @@ func (w *c15World) sweep(thorough bool) {
 func TestVerifC15(t *testing.T) {
 	c := mc.Begin(t, "C15", "model_checking")
 	defer c.End()
-	// the whole search is serial (process-global clock and randomness); one P keeps the node assembly's goroutine hand-off
-	// on this thread, which matters on an oversubscribed machine
-	defer runtime.GOMAXPROCS(runtime.GOMAXPROCS(1))
 	st := &c15Stats{}
 
 	run := func(hist []string) *c15World {
